@@ -36,6 +36,10 @@ type Engine struct {
 	descCache  map[*ssa.Function]map[ssa.Instruction]string
 	skipNil    bool
 	covers     bool
+	embedOnce  sync.Once
+	namedOnce  sync.Once
+	named      map[string]types.Type
+	embeds     map[string][]embedSite
 	noContents bool
 	repoDir    string
 }
@@ -401,6 +405,68 @@ func (e *Engine) findFunction(pkg, rel string) *ssa.Function {
 		}
 	}
 	return found
+}
+
+// namedType finds the named type with the given key in the loaded program.
+func (e *Engine) namedType(key string) types.Type {
+	e.namedOnce.Do(func() {
+		e.named = map[string]types.Type{}
+		for _, p := range e.prog.AllPackages() {
+			for _, m := range p.Members {
+				if tp, ok := m.(*ssa.Type); ok {
+					e.named[typeKey(tp.Type())] = tp.Type()
+				}
+			}
+		}
+	})
+	return e.named[key]
+}
+
+// embedSite: struct type root has, at field path path, a value of some other
+// named struct type.
+type embedSite struct{ root, path string }
+
+// embedSites lists where the named struct type with key t is embedded by value
+// in struct types of the loaded program.
+func (e *Engine) embedSites(t string) []embedSite {
+	e.embedOnce.Do(func() {
+		e.embeds = map[string][]embedSite{}
+		for _, p := range e.prog.AllPackages() {
+			for _, m := range p.Members {
+				tp, ok := m.(*ssa.Type)
+				if !ok {
+					continue
+				}
+				st, ok := under(tp.Type()).(*types.Struct)
+				if !ok {
+					continue
+				}
+				root := typeKey(tp.Type())
+				var walk func(s *types.Struct, path string, depth int)
+				walk = func(s *types.Struct, path string, depth int) {
+					if depth > 6 {
+						return
+					}
+					for i := 0; i < s.NumFields(); i++ {
+						ft := s.Field(i).Type()
+						fp := joinPath(path, s.Field(i).Name())
+						if arr, ok := under(ft).(*types.Array); ok {
+							ft = arr.Elem()
+						}
+						if fs, ok := under(ft).(*types.Struct); ok {
+							if _, named := types.Unalias(ft).(*types.Named); named {
+								k := typeKey(ft)
+								e.embeds[k] = append(e.embeds[k], embedSite{root, fp})
+							}
+							walk(fs, fp, depth+1)
+						}
+					}
+				}
+				walk(st, "", 0)
+			}
+		}
+	})
+	return e.embeds[t]
 }
 
 func (r *FnRun) isHavocked(st *State, key string) bool {
